@@ -1,782 +1,4 @@
-// h264v: line-protocol driver around the real h264-reader crate.
-// One command per stdin line: "<id> <cmd> <args...>"; one answer line "<id> <answer> [panic=1] alloc=<max single request>/<total>".
-// It contains no checking logic: it runs the crate and prints what it observed.
-mod alloc;
-mod pipeline;
-mod syntax;
-mod util;
-
-use h264_reader::annexb::AnnexBReader;
-use h264_reader::nal::{Nal, RefNal};
-use h264_reader::push::{NalAccumulator, NalFragmentHandler, NalInterest};
-use h264_reader::rbsp::{self, BitRead, BitReaderError, ByteReader};
-use std::io::{BufRead, Read};
-use std::num::NonZeroUsize;
-use util::*;
-
-fn biterr(e: &BitReaderError) -> String {
-    match e {
-        BitReaderError::ReaderErrorFor(n, e) => format!("E:ReaderErrorFor:{}:{}", n, iokind(e)),
-        BitReaderError::ExpGolombTooLarge(n) => format!("E:ExpGolombTooLarge:{}", n),
-        BitReaderError::RemainingData => "E:RemainingData".to_string(),
-        BitReaderError::Unaligned => "E:Unaligned".to_string(),
-    }
-}
-
-fn run_bitops<R: BufRead + Clone>(mut r: rbsp::BitReader<R>, ops: &str, out: &mut Vec<String>) {
-    for op in ops.split(',').filter(|s| !s.is_empty()) {
-        macro_rules! num {
-            ($e:expr) => {
-                match $e {
-                    Ok(v) => out.push(format!("v{}", v)),
-                    Err(e) => {
-                        out.push(biterr(&e));
-                        return;
-                    }
-                }
-            };
-        }
-        if op == "ue" || op == "se" {
-            // a codeword with more than 31 leading zeros is an error that leaves the reader behind the codeword's
-            // first 1 bit; the history goes on from there (every other error ends it)
-            let res = if op == "ue" { r.read_ue("x").map(|v| v as i64) } else { r.read_se("x").map(|v| v as i64) };
-            match res {
-                Ok(v) => out.push(format!("v{}", v)),
-                Err(e) => {
-                    let too_large = matches!(e, BitReaderError::ExpGolombTooLarge(_));
-                    out.push(biterr(&e));
-                    if !too_large {
-                        return;
-                    }
-                }
-            }
-        } else if op == "b" {
-            match r.read_bool("x") {
-                Ok(v) => out.push(if v { "T".into() } else { "F".into() }),
-                Err(e) => {
-                    out.push(biterr(&e));
-                    return;
-                }
-            }
-        } else if op == "m" {
-            match r.has_more_rbsp_data("x") {
-                Ok(v) => out.push(if v { "T".into() } else { "F".into() }),
-                Err(e) => {
-                    out.push(biterr(&e));
-                    return;
-                }
-            }
-        } else if op == "f" {
-            match r.finish_rbsp() {
-                Ok(()) => out.push("ok".into()),
-                Err(e) => out.push(biterr(&e)),
-            }
-            return;
-        } else if op == "s" {
-            match r.finish_sei_payload() {
-                Ok(()) => out.push("ok".into()),
-                Err(e) => out.push(biterr(&e)),
-            }
-            return;
-        } else if let Some(n) = op.strip_prefix('k') {
-            let n: u32 = n.parse().unwrap();
-            match r.skip(n, "x") {
-                Ok(()) => out.push("ok".into()),
-                Err(e) => {
-                    out.push(biterr(&e));
-                    return;
-                }
-            }
-        } else if let Some(n) = op.strip_prefix('R') {
-            // BitReader::reader(): when byte-aligned, take up to n whole bytes through the borrowed inner reader
-            let n: usize = n.parse().unwrap();
-            match r.reader() {
-                None => out.push("R:unaligned".into()),
-                Some(inner) => {
-                    let mut left = n;
-                    while left > 0 {
-                        match inner.fill_buf() {
-                            Ok(b) if b.is_empty() => break,
-                            Ok(b) => {
-                                let k = std::cmp::min(b.len(), left);
-                                inner.consume(k);
-                                left -= k;
-                            }
-                            Err(_) => break,
-                        }
-                    }
-                    out.push(format!("R:{}", n - left));
-                }
-            }
-        } else if op == "t8" {
-            num!(r.read_to::<u8>("x"));
-        } else if op == "t16" {
-            num!(r.read_to::<u16>("x"));
-        } else if op == "t32" {
-            num!(r.read_to::<u32>("x"));
-        } else if let Some(rest) = op.strip_prefix("u8.") {
-            num!(r.read::<u8>(rest.parse().unwrap(), "x"));
-        } else if let Some(rest) = op.strip_prefix("u16.") {
-            num!(r.read::<u16>(rest.parse().unwrap(), "x"));
-        } else if let Some(rest) = op.strip_prefix("u32.") {
-            num!(r.read::<u32>(rest.parse().unwrap(), "x"));
-        } else if let Some(rest) = op.strip_prefix("i32.") {
-            num!(r.read::<i32>(rest.parse().unwrap(), "x"));
-        } else {
-            panic!("bad bit op {}", op);
-        }
-    }
-}
-
-fn cmd_bits(args: &[&str], out: &mut Vec<String>) {
-    let src = Src::parse(args[0]);
-    let ops = args.get(1).copied().unwrap_or("");
-    match &src {
-        Src::Raw(b) => run_bitops(rbsp::BitReader::new(&b[..]), ops, out),
-        Src::Nal { .. } => src.with_nal(|nal| run_bitops(nal.rbsp_bits(), ops, out)),
-    }
-}
-
-struct Trace(Vec<String>);
-impl NalFragmentHandler for Trace {
-    fn nal_fragment(&mut self, bufs: &[&[u8]], end: bool) {
-        let parts: Vec<String> = bufs.iter().map(|b| hex(b)).collect();
-        self.0.push(format!("{};{}", parts.join("/"), end as u8));
-    }
-}
-
-fn cmd_annexb(args: &[&str], out: &mut Vec<String>) {
-    let mut r = AnnexBReader::for_fragment_handler(Trace(Vec::new()));
-    for op in args.get(0).copied().unwrap_or("").split(',').filter(|s| !s.is_empty()) {
-        if op == "r" {
-            r.reset();
-        } else if op == "n" {
-            // a freshly constructed reader continues the same trace
-            let t = std::mem::take(&mut r.fragment_handler_mut().0);
-            r = AnnexBReader::for_fragment_handler(Trace(t));
-        } else if let Some(h) = op.strip_prefix('p') {
-            r.push(&unhex(h));
-        } else {
-            panic!("bad annexb op {}", op);
-        }
-        r.fragment_handler_mut().0.push("|".into());
-    }
-    out.append(&mut r.into_fragment_handler().0);
-}
-
-fn run_rbsp_ops<R: BufRead>(mut r: ByteReader<R>, ops: &str, out: &mut Vec<String>) {
-    // bytes returned by the last fill_buf and not consumed since: consume stays within its precondition
-    let mut avail = 0usize;
-    for op in ops.split(',').filter(|s| !s.is_empty()) {
-        if op == "f" {
-            match r.fill_buf() {
-                Ok(b) => {
-                    avail = b.len();
-                    out.push(format!("f:{}", hex(b)))
-                }
-                Err(e) => {
-                    avail = 0;
-                    out.push(format!("E:{}", iokind(&e)))
-                }
-            }
-        } else if op == "e" {
-            // read_to_end by hand so that the partial data is visible on error
-            let mut acc = Vec::new();
-            let err = loop {
-                match r.fill_buf() {
-                    Ok(b) if b.is_empty() => break None,
-                    Ok(b) => {
-                        acc.extend_from_slice(b);
-                        let n = b.len();
-                        r.consume(n);
-                    }
-                    Err(e) => break Some(iokind(&e)),
-                }
-            };
-            avail = 0;
-            match err {
-                None => out.push(format!("e:{}", hex(&acc))),
-                Some(k) => out.push(format!("e:{}!{}", hex(&acc), k)),
-            }
-        } else if let Some(n) = op.strip_prefix('r') {
-            let n: usize = n.parse().unwrap();
-            let mut buf = vec![0u8; n];
-            avail = 0;
-            match r.read(&mut buf) {
-                Ok(k) => out.push(format!("r:{}", hex(&buf[..k]))),
-                Err(e) => out.push(format!("E:{}", iokind(&e))),
-            }
-        } else if let Some(n) = op.strip_prefix('c') {
-            let n: usize = std::cmp::min(n.parse().unwrap(), avail);
-            avail -= n;
-            r.consume(n);
-            out.push(format!("c{}", n));
-        } else {
-            panic!("bad rbsp op {}", op);
-        }
-    }
-}
-
-fn mk_byte_reader<R: BufRead>(inner: R, skip: usize, max_fill: usize) -> ByteReader<R> {
-    #[cfg(h264_reader_verif)]
-    {
-        if max_fill != 0 {
-            return ByteReader::verif_with_max_fill(inner, skip, max_fill);
-        }
-    }
-    #[cfg(not(h264_reader_verif))]
-    {
-        if max_fill != 0 {
-            panic!("max_fill needs the h264_reader_verif hook");
-        }
-    }
-    match NonZeroUsize::new(skip) {
-        None => ByteReader::without_skip(inner),
-        Some(n) if n.get() == 1 => ByteReader::skipping_h264_header(inner),
-        Some(n) => ByteReader::skipping_bytes(inner, n),
-    }
-}
-
-fn cmd_rbsp(args: &[&str], out: &mut Vec<String>) {
-    let src = Src::parse(args[0]);
-    let skip: usize = args[1].parse().unwrap();
-    let max_fill: usize = args[2].parse().unwrap();
-    let ops = args.get(3).copied().unwrap_or("");
-    match &src {
-        Src::Raw(b) => run_rbsp_ops(mk_byte_reader(&b[..], skip, max_fill), ops, out),
-        // header skipped and default window: through the accessor users call, Nal::rbsp_bytes()
-        Src::Nal { .. } if skip == 1 && max_fill == 0 => src.with_nal(|nal| run_rbsp_ops(nal.rbsp_bytes(), ops, out)),
-        Src::Nal { .. } => src.with_nal(|nal| run_rbsp_ops(mk_byte_reader(nal.reader(), skip, max_fill), ops, out)),
-    }
-}
-
-/// The other std::io::Read entry points of a NAL reader must deliver what fill_buf/consume delivered (`want`, ending
-/// with `end`): read_exact in pieces of exactly the buffered chunk, read_exact in pieces of `piece` bytes, read_to_end.
-/// after a reader reported its end (`end` = "Eof" or an error kind) every further call reports the same end, through read
-/// and through fill_buf, on the reader itself and on a clone taken now
-fn end_is_stable<R: BufRead + Clone>(c: &mut R, end: &str) -> Option<String> {
-    let mut k = c.clone();
-    for who in 0..2 {
-        let r: &mut R = if who == 0 { &mut *c } else { &mut k };
-        for round in 0..2 {
-            let mut one = [0u8; 1];
-            let a = match r.read(&mut one) {
-                Ok(0) => "Eof".to_string(),
-                Ok(_) => format!("byte{:02x}", one[0]),
-                Err(e) => iokind(&e),
-            };
-            let b = match r.fill_buf() {
-                Ok(x) if x.is_empty() => "Eof".to_string(),
-                Ok(x) => format!("bytes{}", x.len()),
-                Err(e) => iokind(&e),
-            };
-            r.consume(0);
-            if a != end || b != end {
-                return Some(format!("after-end{}{}:{}/{}", who, round, a, b));
-            }
-        }
-    }
-    None
-}
-
-fn alt_paths<R: BufRead + Clone>(r: &R, want: &[u8], end: &str, piece: usize) -> String {
-    let mut bad: Vec<String> = Vec::new();
-    // read_exact of exactly what fill_buf shows
-    {
-        let mut c = r.clone();
-        let mut got = Vec::new();
-        let e = loop {
-            let n = match c.fill_buf() {
-                Ok(b) if b.is_empty() => break "Eof".to_string(),
-                Ok(b) => b.len(),
-                Err(e) => break iokind(&e),
-            };
-            let mut buf = vec![0u8; n];
-            match c.read_exact(&mut buf) {
-                Ok(()) => got.extend_from_slice(&buf),
-                Err(e) => break format!("x:{}", iokind(&e)),
-            }
-        };
-        if got != want || e != end {
-            bad.push(format!("xchunk:{}!{}", hex(&got), e));
-        } else if let Some(x) = end_is_stable(&mut c, end) {
-            bad.push(format!("xchunk:{}", x));
-        }
-    }
-    // read_exact in pieces of `piece` bytes while that many remain, then the rest
-    {
-        let mut c = r.clone();
-        let mut got = Vec::new();
-        let mut err = None;
-        while got.len() < want.len() {
-            let n = std::cmp::min(std::cmp::max(piece, 1), want.len() - got.len());
-            let mut buf = vec![0u8; n];
-            match c.read_exact(&mut buf) {
-                Ok(()) => got.extend_from_slice(&buf),
-                Err(e) => {
-                    err = Some(iokind(&e));
-                    break;
-                }
-            }
-        }
-        let mut one = [0u8; 1];
-        let e = match err {
-            Some(e) => format!("x:{}", e),
-            None => match c.read(&mut one) {
-                Ok(0) => "Eof".to_string(),
-                Ok(_) => "more".to_string(),
-                Err(e) => iokind(&e),
-            },
-        };
-        if got != want || e != end {
-            bad.push(format!("xpiece:{}!{}", hex(&got), e));
-        } else if let Some(x) = end_is_stable(&mut c, end) {
-            bad.push(format!("xpiece:{}", x));
-        }
-    }
-    // read_to_end
-    {
-        let mut c = r.clone();
-        let mut got = Vec::new();
-        let e = match c.read_to_end(&mut got) {
-            Ok(_) => "Eof".to_string(),
-            Err(e) => iokind(&e),
-        };
-        if got != want || e != end {
-            bad.push(format!("toend:{}!{}", hex(&got), e));
-        } else if let Some(x) = end_is_stable(&mut c, end) {
-            bad.push(format!("toend:{}", x));
-        }
-        // read_to_end once more appends nothing
-        let mut again = Vec::new();
-        let e2 = match c.read_to_end(&mut again) {
-            Ok(_) => "Eof".to_string(),
-            Err(e) => iokind(&e),
-        };
-        if !again.is_empty() || e2 != end {
-            bad.push(format!("toend2:{}!{}", hex(&again), e2));
-        }
-    }
-    if bad.is_empty() {
-        "alt=same".to_string()
-    } else {
-        format!("alt=DIFF({})", bad.join(";"))
-    }
-}
-
-fn cmd_decode_nal(args: &[&str], out: &mut Vec<String>) {
-    let b = unhex(args.get(0).copied().unwrap_or("-"));
-    match rbsp::decode_nal(&b) {
-        Ok(std::borrow::Cow::Borrowed(x)) => out.push(format!("B:{}", hex(x))),
-        Ok(std::borrow::Cow::Owned(x)) => out.push(format!("O:{}", hex(&x))),
-        Err(e) => out.push(format!("E:{}", iokind(&e))),
-    }
-}
-
-fn cmd_refnal(args: &[&str], out: &mut Vec<String>) {
-    let src = Src::parse(args[0]);
-    let ops = args.get(1).copied().unwrap_or("");
-    src.with_nal(|nal| {
-        match nal.header() {
-            Ok(h) => out.push(format!("h:{}:{}:{}", h.nal_ref_idc(), h.nal_unit_type().id(), nal.is_complete() as u8)),
-            Err(_) => out.push(format!("h:err:{}", nal.is_complete() as u8)),
-        }
-        let mut stack = vec![nal.reader()];
-        for op in ops.split(',').filter(|s| !s.is_empty()) {
-            let r = stack.last_mut().unwrap();
-            if op == "f" {
-                match r.fill_buf() {
-                    Ok(b) => out.push(format!("f:{}", hex(b))),
-                    Err(e) => out.push(format!("E:{}", iokind(&e))),
-                }
-            } else if op == "K" {
-                let c = r.clone();
-                stack.push(c);
-                out.push("K".into());
-            } else if let Some(n) = op.strip_prefix('r') {
-                let n: usize = n.parse().unwrap();
-                let mut buf = vec![0u8; n];
-                match r.read(&mut buf) {
-                    Ok(k) => out.push(format!("r:{}", hex(&buf[..k]))),
-                    Err(e) => out.push(format!("E:{}", iokind(&e))),
-                }
-            } else if let Some(n) = op.strip_prefix('c') {
-                r.consume(n.parse().unwrap());
-                out.push("c".into());
-            } else {
-                panic!("bad refnal op {}", op);
-            }
-        }
-        // drain every reader (clones first) so that independence of clones is observable
-        while let Some(mut r) = stack.pop() {
-            let before = r.clone();
-            let mut acc = Vec::new();
-            let mut ends = Vec::new();
-            // ask for the end three times: it must be stable
-            for _ in 0..3 {
-                let e = loop {
-                    match r.fill_buf() {
-                        Ok(b) if b.is_empty() => break "Eof".to_string(),
-                        Ok(b) => {
-                            acc.extend_from_slice(b);
-                            let n = b.len();
-                            r.consume(n);
-                        }
-                        Err(e) => break iokind(&e),
-                    }
-                };
-                ends.push(e);
-            }
-            let mut one = [0u8; 1];
-            let rd = match r.read(&mut one) {
-                Ok(k) => format!("{}", k),
-                Err(e) => iokind(&e),
-            };
-            out.push(format!("d:{}!{}!{}", hex(&acc), ends.join("."), rd));
-            let alt = alt_paths(&before, &acc, &ends[0], 1 + acc.len() % 5);
-            if alt != "alt=same" {
-                out.push(alt);
-            }
-        }
-    });
-}
-
-fn cmd_accum(args: &[&str], out: &mut Vec<String>) {
-    let frags = args.get(0).copied().unwrap_or("");
-    let policy: Vec<u8> = args.get(1).copied().unwrap_or("").bytes().collect();
-    let read_size: usize = args.get(2).map(|s| s.parse().unwrap()).unwrap_or(3);
-    let mut calls: Vec<String> = Vec::new();
-    let mut k = 0usize;
-    {
-        let mut acc = NalAccumulator::new(|nal: RefNal<'_>| {
-            let mut r = nal.reader();
-            let mut bytes = Vec::new();
-            let end = loop {
-                match r.fill_buf() {
-                    Ok(b) if b.is_empty() => break "Eof".to_string(),
-                    Ok(b) => {
-                        bytes.extend_from_slice(b);
-                        let n = b.len();
-                        r.consume(n);
-                    }
-                    Err(e) => break iokind(&e),
-                }
-            };
-            let hdr = match nal.header() {
-                Ok(h) => format!("{}.{}", h.nal_ref_idc(), h.nal_unit_type().id()),
-                Err(_) => "err".to_string(),
-            };
-            // the same NAL once more through Read::read with a scratch buffer of read_size bytes
-            let mut r2 = nal.reader();
-            let mut bytes2 = Vec::new();
-            let mut scratch = vec![0u8; read_size];
-            let end2 = loop {
-                match r2.read(&mut scratch) {
-                    Ok(0) => break "Eof".to_string(),
-                    Ok(k) => bytes2.extend_from_slice(&scratch[..k]),
-                    Err(e) => break iokind(&e),
-                }
-            };
-            let alt = alt_paths(&nal.reader(), &bytes, &end, read_size);
-            let rd = if bytes2 != bytes || end2 != end {
-                format!("rd={}!{}", hex(&bytes2), end2)
-            } else if alt != "alt=same" {
-                format!("rd={}", alt)
-            } else {
-                "rd=same".to_string()
-            };
-            calls.push(format!("{};{};{};{};{}", hex(&bytes), nal.is_complete() as u8, end, hdr, rd));
-            let d = policy.get(k).copied().unwrap_or(b'B');
-            k += 1;
-            if d == b'I' {
-                NalInterest::Ignore
-            } else {
-                NalInterest::Buffer
-            }
-        });
-        for f in frags.split(',').filter(|s| !s.is_empty() && *s != "-") {
-            let (bufs, end) = f.split_once(';').unwrap();
-            let bufs: Vec<Vec<u8>> = bufs.split('/').filter(|s| !s.is_empty()).map(unhex).collect();
-            let refs: Vec<&[u8]> = bufs.iter().map(|b| &b[..]).collect();
-            acc.nal_fragment(&refs, end == "1");
-        }
-    }
-    out.append(&mut calls);
-}
-
-pub fn crc32(data: &[u8]) -> u32 {
-    let mut table = [0u32; 256];
-    for i in 0..256u32 {
-        let mut c = i;
-        for _ in 0..8 {
-            c = if c & 1 != 0 { 0xEDB8_8320 ^ (c >> 1) } else { c >> 1 };
-        }
-        table[i as usize] = c;
-    }
-    let mut c = 0xFFFF_FFFFu32;
-    for &b in data {
-        c = table[((c ^ u32::from(b)) & 0xff) as usize] ^ (c >> 8);
-    }
-    c ^ 0xFFFF_FFFF
-}
-
-/// byte i of the synthetic stream used by the *big commands (period 251, never 0: no start codes / escapes)
-pub fn synth(i: usize) -> u8 {
-    (((i % 251) * 7 + 3) % 255 + 1) as u8
-}
-
-/// accumbig <size:end,size/size:end,...> <policy> : fragments of synthetic bytes (sizes only on the command line); each
-/// handler invocation is reported as L<len>:<crc32>;complete;end;hdr;rd
-fn cmd_accumbig(args: &[&str], out: &mut Vec<String>) {
-    let pol_arg = args.get(1).copied().unwrap_or("");
-    // policy "T..." = tail mode: every invocation is reported by its length and the crc of its last <= 64 bytes only
-    // (walks the chunks without copying), so that one NAL can grow through hundreds of fragments to 100 MB and more
-    let tail_mode = pol_arg.starts_with('T');
-    let policy: Vec<u8> = pol_arg.trim_start_matches('T').bytes().collect();
-    let mut calls: Vec<String> = Vec::new();
-    let mut k = 0usize;
-    {
-        let mut acc = NalAccumulator::new(|nal: RefNal<'_>| {
-            if tail_mode {
-                let mut r = nal.reader();
-                let mut len = 0usize;
-                let mut tail: Vec<u8> = Vec::new();
-                let end = loop {
-                    match r.fill_buf() {
-                        Ok(b) if b.is_empty() => break "Eof".to_string(),
-                        Ok(b) => {
-                            let n = b.len();
-                            len += n;
-                            if n >= 64 {
-                                tail = b[n - 64..].to_vec();
-                            } else {
-                                tail.extend_from_slice(b);
-                                if tail.len() > 64 {
-                                    tail.drain(..tail.len() - 64);
-                                }
-                            }
-                            r.consume(n);
-                        }
-                        Err(e) => break iokind(&e),
-                    }
-                };
-                calls.push(format!("T{}:{:08x};{};{}", len, crc32(&tail), nal.is_complete() as u8, end));
-                let d = policy.get(k).copied().unwrap_or(b'B');
-                k += 1;
-                return if d == b'I' { NalInterest::Ignore } else { NalInterest::Buffer };
-            }
-            let mut r = nal.reader();
-            let mut bytes = Vec::new();
-            let end = loop {
-                match r.fill_buf() {
-                    Ok(b) if b.is_empty() => break "Eof".to_string(),
-                    Ok(b) => {
-                        bytes.extend_from_slice(b);
-                        let n = b.len();
-                        r.consume(n);
-                    }
-                    Err(e) => break iokind(&e),
-                }
-            };
-            let hdr = match nal.header() {
-                Ok(h) => format!("{}.{}", h.nal_ref_idc(), h.nal_unit_type().id()),
-                Err(_) => "err".to_string(),
-            };
-            let alt = alt_paths(&nal.reader(), &bytes, &end, 65536);
-            calls.push(format!("L{}:{:08x};{};{};{};rd={}", bytes.len(), crc32(&bytes), nal.is_complete() as u8, end, hdr, if alt == "alt=same" { "same" } else { "DIFF" }));
-            let d = policy.get(k).copied().unwrap_or(b'B');
-            k += 1;
-            if d == b'I' {
-                NalInterest::Ignore
-            } else {
-                NalInterest::Buffer
-            }
-        });
-        let mut pos = 0usize;
-        for f in args[0].split(',').filter(|s| !s.is_empty()) {
-            let (sizes, end) = f.split_once(':').unwrap();
-            let bufs: Vec<Vec<u8>> = sizes
-                .split('/')
-                .filter(|s| !s.is_empty())
-                .map(|n| {
-                    let n: usize = n.parse().unwrap();
-                    let v: Vec<u8> = (pos..pos + n).map(synth).collect();
-                    pos += n;
-                    v
-                })
-                .collect();
-            let refs: Vec<&[u8]> = bufs.iter().map(|b| &b[..]).collect();
-            acc.nal_fragment(&refs, end == "1");
-        }
-    }
-    out.append(&mut calls);
-}
-
-/// Fragment handler for the big synthetic streams: per unit the total length and crc32 of its bytes; records a call
-/// that hands over an empty slice, or a second end for the same unit.
-struct BigTrace {
-    out: Vec<String>,
-    cur: Vec<u8>,
-    open: bool,
-}
-impl NalFragmentHandler for BigTrace {
-    fn nal_fragment(&mut self, bufs: &[&[u8]], end: bool) {
-        if bufs.iter().any(|b| b.is_empty()) {
-            self.out.push("EMPTYSLICE".into());
-        }
-        if bufs.is_empty() && !end {
-            self.out.push("EMPTYCALL".into());
-        }
-        for b in bufs {
-            self.cur.extend_from_slice(b);
-        }
-        self.open = true;
-        if end {
-            self.out.push(format!("U{}:{:08x}", self.cur.len(), crc32(&self.cur)));
-            self.cur.clear();
-            self.open = false;
-        }
-    }
-}
-
-/// annexbig <F|A> <script> : a stream described by sizes. script tokens, comma separated: z<n> n zero bytes; s = 00 00 01;
-/// o = 01; d<n> n synthetic non-zero bytes; x<hex> literal bytes; | push what was gathered; r push it and reset.
-/// F: fragment-handler trace (units as U<len>:<crc>, open remainder as O<len>:<crc>);  A: AnnexBReader::accumulate with an
-/// always-Buffer handler, every invocation as L<len>:<crc>;<complete>.
-fn cmd_annexbig(args: &[&str], out: &mut Vec<String>) {
-    let mode = args[0];
-    let script = args.get(1).copied().unwrap_or("");
-    let mut pos = 0usize;
-    let mut pending: Vec<u8> = Vec::new();
-    enum Act {
-        Push(Vec<u8>),
-        Reset,
-    }
-    let mut acts: Vec<Act> = Vec::new();
-    for t in script.split(',').filter(|s| !s.is_empty()) {
-        if t == "|" {
-            acts.push(Act::Push(std::mem::take(&mut pending)));
-        } else if t == "r" {
-            if !pending.is_empty() {
-                acts.push(Act::Push(std::mem::take(&mut pending)));
-            }
-            acts.push(Act::Reset);
-        } else if t == "a" {
-            // abandon: push what is pending and drop the reader without a reset
-            if !pending.is_empty() {
-                acts.push(Act::Push(std::mem::take(&mut pending)));
-            }
-        } else if t == "s" {
-            pending.extend_from_slice(&[0, 0, 1]);
-        } else if t == "o" {
-            pending.push(1);
-        } else if let Some(n) = t.strip_prefix('z') {
-            let n: usize = n.parse().unwrap();
-            pending.extend(std::iter::repeat(0u8).take(n));
-        } else if let Some(n) = t.strip_prefix('d') {
-            let n: usize = n.parse().unwrap();
-            pending.extend((pos..pos + n).map(synth));
-            pos += n;
-        } else if let Some(h) = t.strip_prefix('x') {
-            pending.extend(unhex(h));
-        } else {
-            panic!("bad annexbig token {}", t);
-        }
-    }
-    if !pending.is_empty() {
-        acts.push(Act::Push(pending));
-    }
-    if mode == "F" {
-        let mut r = AnnexBReader::for_fragment_handler(BigTrace { out: Vec::new(), cur: Vec::new(), open: false });
-        for a in &acts {
-            match a {
-                Act::Push(b) => r.push(b),
-                Act::Reset => r.reset(),
-            }
-        }
-        let mut h = r.into_fragment_handler();
-        if h.open {
-            h.out.push(format!("O{}:{:08x}", h.cur.len(), crc32(&h.cur)));
-        }
-        out.append(&mut h.out);
-    } else {
-        let mut calls: Vec<String> = Vec::new();
-        {
-            let mut r = AnnexBReader::accumulate(|nal: RefNal<'_>| {
-                let mut rd = nal.reader();
-                let mut bytes = Vec::new();
-                loop {
-                    match rd.fill_buf() {
-                        Ok(b) if b.is_empty() => break,
-                        Ok(b) => {
-                            bytes.extend_from_slice(b);
-                            let n = b.len();
-                            rd.consume(n);
-                        }
-                        Err(_) => break,
-                    }
-                }
-                calls.push(format!("L{}:{:08x};{}", bytes.len(), crc32(&bytes), nal.is_complete() as u8));
-                NalInterest::Buffer
-            });
-            for a in &acts {
-                match a {
-                    Act::Push(b) => r.push(b),
-                    Act::Reset => r.reset(),
-                }
-            }
-        }
-        out.append(&mut calls);
-    }
-}
-
-fn dispatch(cmd: &str, args: &[&str], out: &mut Vec<String>) {
-    match cmd {
-        "bits" => cmd_bits(args, out),
-        "annexb" => cmd_annexb(args, out),
-        "rbsp" => cmd_rbsp(args, out),
-        "decode_nal" => cmd_decode_nal(args, out),
-        "refnal" => cmd_refnal(args, out),
-        "accum" => cmd_accum(args, out),
-        "accumbig" => cmd_accumbig(args, out),
-        "annexbig" => cmd_annexbig(args, out),
-        _ => syntax::dispatch(cmd, args, out),
-    }
-}
-
+// h264v: line-protocol driver around the real h264-reader crate (see lib.rs).
 fn main() {
-    std::panic::set_hook(Box::new(|_| {}));
-    let argv: Vec<String> = std::env::args().collect();
-    if argv.len() > 1 && argv[1] == "tables" {
-        syntax::tables();
-        return;
-    }
-    let stdin = std::io::stdin();
-    let stdout = std::io::stdout();
-    let mut w = std::io::BufWriter::new(stdout.lock());
-    use std::io::Write;
-    for line in stdin.lock().lines() {
-        let line = line.unwrap();
-        let toks: Vec<&str> = line.split_whitespace().collect();
-        if toks.len() < 2 {
-            continue;
-        }
-        let (id, cmd, args) = (toks[0], toks[1], &toks[2..]);
-        let mut out: Vec<String> = Vec::new();
-        alloc::reset();
-        let t0 = std::time::Instant::now();
-        let res = std::panic::catch_unwind(std::panic::AssertUnwindSafe(|| dispatch(cmd, args, &mut out)));
-        let us = t0.elapsed().as_micros();
-        let (mx, total) = alloc::read();
-        // purity: the same command once more must give the same answer
-        if res.is_ok() && matches!(cmd, "sps" | "pps" | "slice" | "sei" | "bp" | "pt" | "t35" | "avcc" | "pipeline") {
-            let mut out2: Vec<String> = Vec::new();
-            let res2 = std::panic::catch_unwind(std::panic::AssertUnwindSafe(|| dispatch(cmd, args, &mut out2)));
-            if res2.is_err() || out2 != out {
-                out.push("pure=0".into());
-            }
-        }
-        let p = if res.is_err() { " panic=1" } else { "" };
-        writeln!(w, "{} {}{} alloc={}/{} us={}", id, out.join(" "), p, mx, total, us).unwrap();
-    }
+    h264v::run_main()
 }
